@@ -48,6 +48,8 @@ type attempt struct {
 	Harness              string   `json:"harness_problem,omitempty"`
 	HealthyControl       string   `json:"healthy_control,omitempty"` // stalledconn: the request made before the connection was stalled
 	ConnStatus           string   `json:"nats_conn_status_at_return,omitempty"`
+	First                *attempt `json:"earlier_call_with_stalled_send,omitempty"` // afterstalled*: the call made first on the same transport
+	PeerRequests         int      `json:"peer_requests_seen,omitempty"`
 	Reuse                *attempt `json:"reused_fctx_request,omitempty"` // publishrefused: the next request with the same FContext
 }
 
@@ -521,6 +523,7 @@ func attemptHTTP(c c13case, body []byte) *attempt {
 	open := func() { once.Do(func() { close(release) }) }
 	var mu sync.Mutex
 	mode := c.Pattern
+	hangups := 0
 	lateDone := make(chan struct{}, 8)
 	srv := httptest.NewServer(http.HandlerFunc(func(w http.ResponseWriter, r *http.Request) {
 		raw, _ := io.ReadAll(r.Body)
@@ -550,6 +553,22 @@ func attemptHTTP(c c13case, body []byte) *attempt {
 			sleepOr(c.lateDelay(), release)
 		case md == "never":
 			<-release
+		case strings.HasPrefix(md, "hangup:"):
+			// first request: sit on it for d < T, then close the connection
+			// without a response (the client sees EOF); later ones: silent
+			mu.Lock()
+			hangups++
+			first := hangups == 1
+			mu.Unlock()
+			if first && sleepOr(c.hangDelay(), release) {
+				if hj, ok := w.(http.Hijacker); ok {
+					if conn, _, err := hj.Hijack(); err == nil {
+						conn.Close()
+						return
+					}
+				}
+			}
+			<-release
 		case md == "stallbody":
 			w.Header().Set("content-length", strconv.Itoa(len(resp)))
 			w.WriteHeader(http.StatusOK)
@@ -567,6 +586,9 @@ func attemptHTTP(c c13case, body []byte) *attempt {
 	fctx, payload, want := newCtx(c, body)
 	a := invoke(callSpec{c: c, tr: tr, fctx: fctx, payload: payload, want: want, flags: flags, release: open})
 	a.RequestHex = fmt.Sprintf("%x", payload)
+	mu.Lock()
+	a.PeerRequests = hangups
+	mu.Unlock()
 	if a.Returned && c.isLate() {
 		// with a tiny timeout the client may give up before the request reaches the handler
 		wait := c.lateDelay() + 300*time.Millisecond
